@@ -7,13 +7,13 @@ CONSTANTS
   Limit = 3
   Window = 4
   MaxRound = 3
-  MaxSnaps = 8
+  MaxSnaps = 7
   MaxEarly = 1
   Late = {}
   MaxPub = 1
-  MaxAhead = 1
+  MaxAhead = 0
   Interleave = FALSE
-  Faults = FALSE
+  Faults = TRUE
   RefChoice = FALSE
   RemoteAnytime = FALSE
   Eager = TRUE
